@@ -2284,7 +2284,8 @@ impl Exec {
                                 self.fail(&["C17", "C05"], format!("the collection freed the cells {:?}, which are reachable from the roots", freed_live));
                             }
                             if !kept_dead.is_empty() {
-                                self.fail(&["C17", "C06"], format!("the collection kept the cells {:?}, which are not reachable from the roots", kept_dead));
+                                // (a dead node that stays stored breaks C06's count, not the soundness of the table)
+                                self.fail(&["C06"], format!("the collection kept the cells {:?}, which are not reachable from the roots", kept_dead));
                             }
                         }
                         // liveness of the named handles
